@@ -65,8 +65,29 @@ def rand_terms(rng, labs, maxdeg, nterms=None, coefs=None, raw=False, lo=0, hi=6
     return out
 
 
+_MODEL_OF = {"calls": 0, "named": 0}
+
+
 def model_of(T, terms):
-    """Build a library model of type T from raw terms via item += (the documented way)."""
+    """Build a library model of type T from raw terms via item += (the documented way).  About every sixth model that has a linear
+    term is grown out of a variable object instead (T.create_var(x): a one-term model that carries its name; in-place edits
+    keep the name): x = create_var(x0); x *= c0; then the other terms are added in place.  Same function, same type -- only
+    the object's history (and its `name`) differ, which no property lets matter."""
+    _MODEL_OF["calls"] += 1
+    import zlib
+    if zlib.crc32(repr(list(terms.items())).encode()) % 6 == 0:      # (decided by the content alone: a case replays identically)
+        k0 = next((k for k, v in terms.items() if len(k) == 1 and v), None)
+        if k0 is not None:
+            try:
+                m = T.create_var(k0[0])
+                m *= terms[k0]
+                for k, v in terms.items():
+                    if k is not k0:
+                        m[k] += v
+                _MODEL_OF["named"] += 1
+                return m
+            except Exception:   # noqa -- (a coefficient type the product does not take: build it the plain way)
+                pass
     m = T()
     for k, v in terms.items():
         m[k] += v
